@@ -27,7 +27,8 @@ PY
 DEMO=$(cat _demo_cmd); PKGS=$(cat _pkgs)
 echo "demo: $DEMO"; echo "pkgs: $PKGS"
 eval "$DEMO" > _demo_clean.out 2>&1; echo "demo on clean tree: exit=$? (expect 0)"
-git apply "$SD/patch.diff" 2>/dev/null || patch -p1 -s -F3 --no-backup-if-mismatch < "$SD/patch.diff" || { echo PATCH FAILED; exit 2; }
+PATCH="$SD/patch.diff"; [ -f "$SD/patch-current.diff" ] && PATCH="$SD/patch-current.diff"
+git apply "$PATCH" 2>/dev/null || patch -p1 -s -F3 --no-backup-if-mismatch < "$PATCH" || { echo PATCH FAILED; exit 2; }
 go build ./... > _build.out 2>&1; echo "build with change: exit=$?"
 eval "$DEMO" > _demo_mut.out 2>&1; echo "demo with change: exit=$? (expect non-zero)"
 xargs -r rm -f < _demo_files   # the existing suite, without the demonstration itself
